@@ -112,6 +112,62 @@ def enc_py(x):
     raise TypeError("unexpected result type %s" % t.__name__)
 
 
+def read_tokens(toks, i=0):
+    """wire tokens -> (JSON value, next index); the inverse of enc_json (floats stay as their text)"""
+    t = toks[i]
+    k, body = t[0], t[1:]
+    if k == "i":
+        return ["i", str(int(body))], i + 1
+    if k == "f":
+        return ["ftext", body], i + 1
+    if k == "b":
+        return ["b", body == "1"], i + 1
+    if k == "n":
+        return ["n"], i + 1
+    if k == "y":
+        return ["y", "" if body == "-" else body], i + 1
+    if k == "t":
+        return ["t", [] if body == "-" else [int(c) for c in body.split(".")]], i + 1
+    if k == "L":
+        items, i = [], i + 1
+        for _ in range(int(body)):
+            v, i = read_tokens(toks, i)
+            items.append(v)
+        return ["L", items], i
+    if k == "D":
+        items, i = [], i + 1
+        for _ in range(int(body)):
+            key = toks[i][1:]
+            v, i = read_tokens(toks, i + 1)
+            items.append([[] if key == "-" else [int(c) for c in key.split(".")], v])
+        return ["D", items], i
+    raise ValueError(t)
+
+
+def canon(v):
+    """equality of values as Python sees it, plus exact types: dict items are unordered"""
+    k = v[0]
+    if k == "f":
+        return ["ftext", hx(str(to_py(v)).encode("ascii"))]
+    if k == "y":
+        return ["y", v[1] if v[1] != "-" else ""]
+    if k == "L":
+        return ["L", [canon(x) for x in v[1]]]
+    if k == "D":
+        return ["D", sorted(([key, canon(x)] for key, x in v[1]), key=lambda kv: kv[0])]
+    if k == "i":
+        return ["i", str(int(v[1]))]
+    return v
+
+
+def same_value(tokens, v):
+    try:
+        got, n = read_tokens(tokens)
+    except (ValueError, IndexError):
+        return False
+    return n == len(tokens) and canon(got) == canon(v)
+
+
 def is_scalar(c):
     return 0 <= c < 0xD800 or 0xE000 <= c < 0x110000
 
@@ -491,8 +547,8 @@ class C20(Suite):
             if out == "reject":
                 return None if not in_scope(v) else "dump raised on a value of the supported types"
             dumped, _, parsed = out.partition(" ")
-            want = " ".join(enc_json(v)) + " / " + c["tail"]
-            if parsed != want:
+            val, sep, rest = parsed.rpartition(" / ")
+            if not sep or rest != c["tail"] or not same_value(val.split(" "), v):
                 if not in_scope(v):
                     return None
                 return "parse(dump(v)+tail) is not (v, tail): got %s" % parsed[:200]
@@ -598,6 +654,22 @@ class C20(Suite):
                 yield {**c, "data": hx(d[:i] + d[i + 1:])}
         else:
             ch = c["chunks"]
+            if c["vals"] is not None:
+                from cpppo.server import tnetstrings
+
+                def rebuild(vals, tail):
+                    data = b"".join(tnetstrings.dump(to_py(v)) for v in vals) + unhx(tail)
+                    return {"op": "stream", "chunks": [data.hex()] if data else [], "vals": vals, "tail": tail}
+                vals = c["vals"]
+                if len(ch) > 2:
+                    yield rebuild(vals, c["tail"])
+                if c["tail"] != "-":
+                    yield rebuild(vals, "-")
+                for i in range(len(vals)):
+                    if len(vals) > 1:
+                        yield rebuild(vals[:i] + vals[i + 1:], c["tail"])
+                    for w in shrink_val(vals[i]):
+                        yield rebuild(vals[:i] + [w] + vals[i + 1:], c["tail"])
             if c["vals"] is None:
                 data = b"".join(bytes.fromhex(h) for h in ch)
                 for i in range(len(data)):
@@ -635,4 +707,5 @@ def shrink_val(v):
         for i in range(min(len(v[1]), 12)):
             yield ["t", v[1][:i] + v[1][i + 1:]]
     elif k == "i" and v[1] not in ("0",):
-        yield ["i", str(int(int(v[1]) / 10))]
+        n = int(v[1])
+        yield ["i", str(abs(n) // 10 * (1 if n > 0 else -1))]
